@@ -307,12 +307,18 @@ theorem smul_unknown_not_Zero {a : EdElem} (ka : a.kind = .unknown) (n : ℤ) (h
   have := congrArg EdElem.kind e
   simp [Ed25519.Zero] at this
 
-omit [Fact c.Q.toNat.Prime] h in
+include h in
 theorem smul_unknown_zero {a : EdElem} (ka : a.kind = .unknown) :
     Ed25519.smul c a 0 = .ok ⟨.unknown, Ed25519.zeroPt c⟩ := by
   simp only [Ed25519.smul, ka]
   rw [if_neg (by omega)]
-  rfl
+  -- independent of how the code writes the n == 0 result (`xform_affine_to_extended((0,1))`, a hoisted
+  -- constant or the literal `(0, 1, 1, 0)`): both sides evaluate to `(0, 1, 1, 0)` because `Q ≥ 2`
+  have hQ : (2 : ℤ) ≤ c.Q := by have := h.Q_prime.two_le; omega
+  have e1 : Int.emod 1 c.Q = 1 := Int.emod_eq_of_lt (by omega) (by omega)
+  have e0 : Int.emod 0 c.Q = 0 := Int.zero_emod _
+  simp [Ed.scalarmult_element_safe_slow, Ed.scalarmult_element_safe_slowAux, Ed25519.zeroPt,
+    Ed.xform_affine_to_extended, Py.bitLength, e1, e0]
 
 /-! ### (d) `==` -/
 
